@@ -56,9 +56,9 @@ DEV_ORDER = ["maxmerge", "tieinput", "arorder"]
 
 def model_check(ctx, cov):
     if ctx.quick:
-        cfgs = [("mc/InitOrder_quick.cfg", 8, 900, 8)]
+        cfgs = [("mc/InitOrder_quick.cfg", 8, 900, 32)]
     else:
-        cfgs = [("mc/InitOrder_thorough.cfg", 4, 2400, 16), ("mc/InitOrder_thorough_b.cfg", 4, 2400, 16)]
+        cfgs = [("mc/InitOrder_thorough.cfg", 4, 2400, 48), ("mc/InitOrder_thorough_b.cfg", 4, 2400, 48)]
     dev_mod = os.environ.get("VERIF_C30_MOD")      # development aid: thinner sample
     env_for = lambda mod: {"C30_MOD": dev_mod or str(mod), "C30_SEED": str(ctx.seed % 1000003)}  # noqa: E731
 
@@ -123,11 +123,14 @@ def scn_signature(rec):
 
 
 def wild_options(rec, rng):
-    """Options that must not influence the order."""
+    """Options that must not influence the order (mostly few threads: 16 idle threads per link make the
+    replay several times slower on a busy machine)."""
     extra, env = [], {}
-    t = rng.choice([None, None, 1, 2, 8])
+    t = rng.choice([1, 2, 2, 2, 4, 4, 8, None])
     if t is not None:
         extra.append(f"--threads={t}")
+    if rng.random() < 0.75:
+        extra.append("--no-fork")
     if rng.random() < 0.3:
         env["WILD_FILES_PER_GROUP"] = "1"
     return extra, env
@@ -351,7 +354,7 @@ def replay(ctx, path):
     rec = json.loads((path / "scenario.json").read_text())
     meta = json.loads((path / "replay.json").read_text()) if (path / "replay.json").exists() else {}
     build_wild()
-    extra = [a for a in meta.get("wild_cmd", []) if a.startswith("--threads")]
+    extra = [a for a in meta.get("wild_cmd", []) if a.startswith(("--threads", "--no-fork"))]
     with scratch("c30r") as d:
         res = replay_one(rec, d / "case", None, (extra, meta.get("env", {})))
         judge(rec, res, lambda key, text, tag: ctx.verdict.report(key, text, lambda: path), "replay")
